@@ -161,6 +161,8 @@ def _is_test_like(e: ast.AST) -> bool:
         return True
     if isinstance(e, ast.Call) and isinstance(e.func, ast.Name) and e.func.id in ('isinstance', 'bool', 'callable', 'hasattr'):
         return True
+    if isinstance(e, ast.Call) and id(e) in _OBSERVER_CALLS:
+        return True                     # `flag = store.has(key)`: the bare predicate call is a test as much as its negation
     return False
 
 
